@@ -47,13 +47,15 @@ theorem C15_tables :
 
 /-! ## the kernels of one cycle -/
 
-/-- One cycle returns the user's amplitude for either reversal flag: the sign flip of the symbol
-constructor and the sign flip of the translator cancel. -/
+/-- KERNEL LEMMA (about `savedVal`, a three-line function of CC/Proofs/DrawIO.lean that restates
+the two sign flips, not about the interpretive model — the model-level statement is
+`C15_roundtrip_element`): one cycle returns the user's amplitude for either reversal flag. -/
 theorem C15_value_roundtrip (rev : Bool) (v : GQ) : savedVal rev v = v :=
   savedVal_eq GQ.neg_neg' rev v
 
-/-- The loader feeds the saved phase (radians, cosine reference) back with the `deg` / `sin` flags
-cleared, so the reloaded source saves the same phase again — for every flag combination. -/
+/-- KERNEL LEMMA (about `savedPhase` of CC/Proofs/DrawIO.lean; it holds by `rfl` and only documents
+the design of the repair 5d18a69 — the model-level statement is `C15_roundtrip_element`): the
+saved phase fed back with the `deg` / `sin` flags cleared is saved again unchanged. -/
 theorem C15_phase_roundtrip {K : Type} [Sub K] (halfPi ninety : K) (toRad : K → K) (sin deg : Bool) (phi : K) :
     savedPhase halfPi ninety toRad false false (savedPhase halfPi ninety toRad sin deg phi) =
       savedPhase halfPi ninety toRad sin deg phi :=
@@ -196,10 +198,15 @@ example :
 
 /-! ## declarative descriptions -/
 
-/-- **Declarative = programmatic**: for every handler class and all values, the symbol that
-`element_factory` builds from the whole description (placement keys included) is the symbol the
-programmatic constructor call builds: `type`, `direction`, `length`, `place_after` reach no
-circuit-relevant attribute. -/
+/-- **Placement keys do not reach the constructor**: for every handler class and all values,
+`construct cls (type :: values ++ [direction, length, place_after])` = `construct cls values` —
+the four keys of a declarative description that `element_factory` hands on with the rest reach
+no circuit-relevant attribute of the symbol (one fixed key order per class).  The model function
+`declarative` itself (handler lookup, `line` with / without name, direction → method,
+`length × unit`, `place_after` → end anchor of the named element) occurs in no theorem: it is tied
+to `schematic.py` by the generated tables (`C15_tables`) and the correspondence, and "a declarative
+element list produces the same symbol list / circuit as the constructor calls" is judged by the
+oracle (see `OPEN_STATEMENTS` of harness/props/c15.py). -/
 theorem C15_declarative (π : Rat) (r s t : Val) (name : String) (rev : Bool) (tv dv lv pv : Val) :
     DeclSame π "Resistor" [("R", r), ("name", .str name), ("reverse", .bool rev)] tv dv lv pv ∧
     DeclSame π "Conductance" [("G", r), ("name", .str name), ("reverse", .bool rev)] tv dv lv pv ∧
